@@ -613,14 +613,17 @@ func (c *Conn) send(ctx context.Context, f func(context.Context) error) error {
 		if err := c.state.WaitUntilOrClosed(ctx, connStatusConnected); err != nil {
 			return err
 		}
+		epoch := c.state.Epoch()
 		if err := f(ctx); err != nil {
 			if !errors.Is(err, errors.ErrConnectionClosed) {
 				return err
 			}
-			if c.state.CompareAndSwapNot(connStatusClosed, connStatusReconnecting) {
-				continue
+			// start a reconnect only if the error stems from the current wire connection: when several calls fail on
+			// the same lost connection, the late ones must not tear down the connection that replaced it
+			if closed := c.state.StartReconnectIfEpoch(epoch); closed {
+				return errors.ErrConnectionClosed
 			}
-			return errors.ErrConnectionClosed
+			continue
 		}
 		return nil
 	}
